@@ -26,7 +26,7 @@ def _psy():
     return FortranReader, FortranWriter, N, InlineTrans, TransformationError
 
 
-REFUSALS = [("static (Fortran SAVE)", "static"), ("from its parent container", "container"),
+REFUSALS = [("Return statements and therefore cannot be inlined", "earlyReturn"), ("static (Fortran SAVE)", "static"), ("from its parent container", "container"),
             ("cannot be found in any of the containers", "container"),
             ("number of arguments", "nargs"), ("is not a Reference or a Literal", "arrayExpr"),
             ("reshapes an argument", "rank"), ("non-unit stride", "stride")]
@@ -135,9 +135,18 @@ def export_call(call, callee, names):
         locs.append(names.id(sym.name))
         if isinstance(sym.interface, StaticInterface) and not sym.is_constant:
             statics.append(names.id(sym.name))
-    body = minif.export_stmt(list(callee.children), names)
+    # RETURN statements: the model gets their number (any depth) and whether the last statement is one; the body
+    # is exported without them (MiniF has no RETURN; `validate = ok` implies there is none except a trailing one)
+    rets = callee.walk(N.Return)
+    if callee.children and isinstance(callee.children[0], N.Return):
+        raise minif.Unsupported("routine starts with RETURN (treated as empty by InlineTrans)")
+    last_is_return = 1 if (callee.children and isinstance(callee.children[-1], N.Return)) else 0
+    stripped = callee.copy()
+    for ret in stripped.walk(N.Return):
+        ret.detach()
+    body = minif.export_stmt(list(stripped.children), names)
     actuals = [export_actual(a, names) for a in call.arguments]
-    return ["call", local_names, outer, params, locs, statics, body, actuals]
+    return ["call", local_names, outer, params, locs, statics, body, actuals, len(rets), last_is_return]
 
 
 def export_cstmt(node, names, callsx):
@@ -213,7 +222,7 @@ def real_inline(src):
     try:
         res["inlined"] = minif.export_stmt(list(res["inlined_nodes"]), names)
     except minif.Unsupported as e:
-        res["unsupported"] = "result: " + str(e)
+        res["inlined_unsupported"] = str(e)
     return res
 
 
